@@ -98,6 +98,11 @@ def _data_column(cls: str, n: int, c: int, dtag: str):
         return [r * 1000 + c for r in range(n)]
     if cls == "f":
         return [r + c / 8 + 0.0625 for r in range(n)]
+    if cls == "b":  # booleans (display text str(True) / str(False))
+        return [bool(r % 2) for r in range(n)]
+    if cls == "fe":  # floats whose str() uses exponents / many digits (display text is str(value), not a dtype cast)
+        vals = [1e-05, 1e16, 0.1 + 0.2, -0.0, 123456789.125, 5e-324, 1.5e300]
+        return [vals[r % len(vals)] for r in range(n)]
     if cls == "u":  # tag + a class-boundary code point (Latin-1, BMP edges around the signed 16-bit wrap, astral)
         return [f"{dtag}{r}.{c} " + UNICODE_EDGES[r % len(UNICODE_EDGES)] for r in range(n)]
     if cls == "ni":  # integer column with nulls (null must display as empty, not 'None')
@@ -111,7 +116,7 @@ def _data_column(cls: str, n: int, c: int, dtag: str):
     raise ValueError(cls)
 
 
-_POLARS_DT = {"s": "Utf8", "p": "Utf8", "x": "Utf8", "ni": "Int64", "nf": "Float64", "u": "Utf8", "i": "Int64", "f": "Float64", "z": "Utf8", "m": "Utf8"}
+_POLARS_DT = {"s": "Utf8", "p": "Utf8", "x": "Utf8", "ni": "Int64", "nf": "Float64", "u": "Utf8", "b": "Boolean", "fe": "Float64", "i": "Int64", "f": "Float64", "z": "Utf8", "m": "Utf8"}
 
 
 def table_frame(spec: dict, dtag: str = "D"):
@@ -217,6 +222,8 @@ def build(spec: dict) -> Built:
             dfs.append(b.df)
             bodies.append(b.doc[0])
             headers.append(b.doc[1])
+        if spec.get("share_body"):  # one RTFBody object held by every section
+            bodies = [bodies[0]] * len(bodies)
         kw["df"] = dfs
         kw["rtf_body"] = bodies
         hm = spec.get("multi_header", "nested")
